@@ -69,7 +69,7 @@ theorem parseDecl_prefix (env : Env) (F D : Nat) (pt : DType) (mods : Mods) (loc
     (hspec : PrefixSpec env F D pt pre d1) (hfn : isFnType d1 = false)
     (hy : Yields env.cfg w.buf ops bmid) (hops : tvs ops = pre)
     (htx : tokenEofOk env.cfg bmid = .ok (some x, bx)) (hx : x.type = "NAME") (hxv : identVal x.value = true)
-    (httm : tokenEofOk env.cfg bx = .ok (some tm, b')) (htm : tm.type = ";" ∨ tm.type = "," ∨ tm.type = "=" ∨ tm.type = ":")
+    (httm : tokenEofOk env.cfg bx = .ok (some tm, b')) (hlt : tm.type ≠ "<") (hdc : tm.type ≠ "DBL_COLON") (hpar : tm.type ≠ "(")
     (hF : 1 ≤ F) :
     ∃ (w' : World) (t' : Tok), SameButLog w w' ∧ tokenEofOk env.cfg w'.buf = .ok (some t', b') ∧
       t'.type = tm.type ∧ t'.value = tm.value ∧
@@ -91,10 +91,10 @@ theorem parseDecl_prefix (env : Env) (F D : Nat) (pt : DType) (mods : Mods) (loc
   have hc4v : c4.value = x.value := by rw [hv4, hv3, hv2, hv1]
   obtain ⟨w5, t5, hpq, hs5, ht5, hty5, hv5⟩ := plain_pqname env F (core F D) true false false c4 [] w4 bx b' tm
     (by rw [hty4, hty3, hty2, hty1, hx]) (by rw [hc4v]; exact hpv) (by rw [hc4v]; exact hnc) (by simp)
-    (by rw [hb4]; exact .nil _) httm (by rcases htm with h | h | h | h <;> (rw [h]; decide)) (by rcases htm with h | h | h | h <;> (rw [h]; decide))
+    (by rw [hb4]; exact .nil _) httm hlt hdc
     (by simp; omega)
   obtain ⟨w6, t6, hi6, hs6, ht6, hty6, hv6⟩ := step_tokenIf_miss env ["("] (logged env w5 "parse_pqname") t5 b'
-    (by rw [logged_buf']; exact ht5) (by rw [hty5]; rcases htm with h | h | h | h <;> (rw [h]; decide))
+    (by rw [logged_buf']; exact ht5) (by rw [hty5]; simp [hpar])
   refine ⟨w6, t6, (((((hs1.trans hs2).trans hs3).trans hs4).trans hs5).butLog.trans (logged_butLog env w5 _)).trans hs6.butLog,
     ht6, by rw [hty6, hty5], by rw [hv6, hv5], ?_⟩
   unfold parseDecl parseCvPtr
@@ -123,7 +123,8 @@ theorem declarator_variable_pre (env : Env) (F D : Nat) (pt : DType) (location :
       w7.delivered = w.delivered + 1 ∧ w7.anon = w.anon ∧ w7.muted = false ∧ w7.nextId = w.nextId ∧
       w7.mainTok = w.mainTok := by
   obtain ⟨w1, t1, hs1, ht1, hty1, hv1, hi1⟩ := parseDecl_prefix env F D pt {} location doxygen false pre ops x tm d1 w bmid bx b'
-    blk rest hstack hspec hfn hy hops htx hx hxv httm (htm.elim .inl (fun h => .inr (.inl h))) hF
+    blk rest hstack hspec hfn hy hops htx hx hxv httm
+    (by rcases htm with h | h <;> (rw [h]; decide)) (by rcases htm with h | h <;> (rw [h]; decide)) (by rcases htm with h | h <;> (rw [h]; decide)) hF
   have hnm : fieldName (false || decide (blk.hdr.kind = .cls)) (.mk [.name x.value none] none false) = some none := by
     have hd : decide (blk.hdr.kind = .cls) = false := by simp [hk]
     rw [hd]; rfl
@@ -179,7 +180,8 @@ theorem declarator_field_pre (env : Env) (F D : Nat) (pt : DType) (location : Lo
       w7.delivered = w.delivered + 1 ∧ w7.anon = w.anon ∧ w7.muted = false ∧ w7.nextId = w.nextId ∧
       w7.mainTok = w.mainTok := by
   obtain ⟨w1, t1, hs1, ht1, hty1, hv1, hi1⟩ := parseDecl_prefix env F D pt {} location doxygen false pre ops x tm d1 w bmid bx b'
-    blk rest hstack hspec hfn hy hops htx hx hxv httm (htm.elim .inl (fun h => .inr (.inl h))) hF
+    blk rest hstack hspec hfn hy hops htx hx hxv httm
+    (by rcases htm with h | h <;> (rw [h]; decide)) (by rcases htm with h | h <;> (rw [h]; decide)) (by rcases htm with h | h <;> (rw [h]; decide)) hF
   have hnm : fieldName (false || decide (blk.hdr.kind = .cls)) (.mk [.name x.value none] none false) = some (some x.value) := by
     have hd : decide (blk.hdr.kind = .cls) = true := by simp [hk]
     rw [hd]; rfl
